@@ -259,12 +259,12 @@ def SeqState.update (st : SeqState) (buf : Lfn.Buf) (start : Bool) (sequence csu
     pure (.Remaining csum (sequence - 1), b)
   else match st with
     | .Remaining c next =>
-      if !start ∧ sequence = 1 ∧ next = sequence then do
+      if !start ∧ sequence = 1 ∧ next = sequence ∧ c = csum then do
         let b ← Lfn.push buf frag
-        pure (.Complete c, b)
-      else if !start ∧ sequence ≥ 1 ∧ sequence < 0x13 ∧ next = sequence then do
+        pure (.Complete csum, b)
+      else if !start ∧ sequence ≥ 1 ∧ sequence < 0x13 ∧ next = sequence ∧ c = csum then do
         let b ← Lfn.push buf frag
-        pure (.Remaining c (sequence - 1), b)
+        pure (.Remaining csum (sequence - 1), b)
       else pure (.Waiting, Lfn.clear buf)
     | _ => pure (.Waiting, Lfn.clear buf)
 
@@ -483,7 +483,8 @@ def write (file : Nat) (buffer : Bytes) : M Unit := do
   let f ← getFile fileIdx
   let volIdx ← getVolumeById f.rawVolume
   if f.mode = .ReadOnly then M.fail .ReadOnly else
-  modifyFile fileIdx fun f => { f with dirty := true }
+  let s0 ← M.get
+  modifyFile fileIdx fun f => { f with dirty := true, entry := { f.entry with attributes := Attr.setArchive f.entry.attributes, mtime := s0.clock } }
   if f.entry.cluster < RESERVED_ENTRIES then do
     let c ← withVol volIdx (Fat.allocCluster none false)
     modifyFile fileIdx fun f => { f with entry := { f.entry with cluster := c } }
@@ -494,8 +495,6 @@ def write (file : Nat) (buffer : Bytes) : M Unit := do
   let bytesUntilMax := MAX_FILE_SIZE - f.currentOffset
   let bytesToWrite := min buffer.length bytesUntilMax
   writeLoop fileIdx volIdx (bytesToWrite + 1) (buffer.take bytesToWrite)
-  let s ← M.get
-  modifyFile fileIdx fun f => { f with entry := { f.entry with attributes := Attr.setArchive f.entry.attributes, mtime := s.clock } }
 
 /-- `flush_file(file)`. -/
 def flushFile (file : Nat) : M Unit := do
